@@ -39,7 +39,7 @@ var backends = []backend{
 func firstLine(s string) string {
 	for _, l := range strings.Split(s, "\n") {
 		l = strings.TrimSpace(l)
-		if l == "" {
+		if l == "" || strings.HasPrefix(l, "WARNING") {
 			continue
 		}
 		return l
